@@ -6,6 +6,10 @@ def gen(rng, tier):
     mx = rng.choice([1, 1, 2, 2, 3, 4])
     wait = rng.choice([None, None, 0, rng.randint(1, 50), rng.randint(1, 50), rng.choice([5, 10, 20])])
     header = "bulkhead max=%d" % mx + ("" if wait is None else " wait=%d" % wait)
+    if rng.random() < 0.06:
+        wait = None                       # an unrepresentable deadline (Duration::MAX) behaves like no deadline
+        header = "bulkhead max=%d wait=max" % mx
+    burn_p = rng.choice([0, 0, 0.15, 0.5])  # callers whose task has used up its cooperative budget before the first poll
     ncall = rng.randint(1, 10) if rng.random() < 0.8 else rng.randint(mx, mx + 2)
     ops = []
     now = 0
@@ -19,7 +23,7 @@ def gen(rng, tier):
             c = pending.pop(0)
             lat = rng.choice([0, 0, 1, 5, 10, rng.randint(0, 60)])
             out = pick_outcome(rng)
-            ops.append("arrive %d inner=%d:%s" % (c, lat, out))
+            ops.append("arrive %d inner=%d:%s%s" % (c, lat, out, " burn=1" if rng.random() < burn_p else ""))
             arrived.append(c)
             if rng.random() < 0.6:
                 ops.append("poll %d" % c)
@@ -50,7 +54,7 @@ def gen(rng, tier):
         ops.append("adv %d" % rng.choice([0, 1, 100]))
         ids = [100 + i for i in range(mx + (1 if rng.random() < 0.5 else 0))]
         for c in ids:
-            ops.append("arrive %d inner=1000:ok" % c)
+            ops.append("arrive %d inner=1000:ok%s" % (c, " burn=1" if rng.random() < burn_p else ""))
         order = ids[:]
         rng.shuffle(order)
         for c in order:
@@ -65,7 +69,7 @@ def _scan(case, lines, meta):
     """walk the implementation log; yields per-position state needed by the monitors"""
     cfg = kvs(case["header"])
     mx = int(cfg.get("max", "1"))
-    wait = int(cfg["wait"]) if "wait" in cfg else None
+    wait = int(cfg["wait"]) if "wait" in cfg and cfg["wait"] != "max" else None   # "max": Duration::MAX, never due
     return mx, wait
 
 
